@@ -14,7 +14,7 @@ Lemma demote_fold_front : forall accts st0 s (done : list N), RS st0 s -> (foral
 Proof.
   induction accts as [|a accts IH]; intros st0 s done R Hd; cbn [fold_left].
   - intros b Hb. rewrite app_nil_r in Hb. apply Hd, Hb.
-  - destruct R as [S1 [C1 Ch1]]. destruct (demote_one_RS a s S1) as [[S2 [C2 Ch2]] [Ho [_ [_ [Hlow Hcont]]]]].
+  - destruct R as [S1 [C1 Ch1]]. destruct (demote_one_RS a s S1) as [[S2 [C2 Ch2]] [Ho [_ [_ [Hlow [Hcont _]]]]]].
     intros b Hb. apply (IH st0 (demote_one a s) (done ++ [a])).
     + split; [exact S2 | split; congruence].
     + intros c Hc. unfold front_at. rewrite Ch2. destruct (N.eq_dec c a) as [->|Hne].
@@ -67,7 +67,7 @@ Qed.
 Section TruncPres.
   Variable Q : pool -> Prop.
   Hypothesis Q_one : forall a s, SInv s -> Q s -> Q (trunc_one a s).
-  Hypothesis Q_core : forall s s', core s' = core s -> Q s -> Q s'.
+  Hypothesis Q_fuel : forall s, Q s -> Q (set_fuel s).
 
   Let SQ (s : pool) : Prop := SInv s /\ Q s.
 
@@ -79,7 +79,7 @@ Section TruncPres.
   Lemma tp_equalize : forall fuel g offs lb th p st, SQ st -> SQ (snd (trunc_equalize fuel g offs lb th p st)).
   Proof.
     induction fuel as [|k IH]; intros g offs lb th p st [S1 Q1]; cbn [trunc_equalize].
-    - cbn [snd]. split; [eapply SInv_core; [apply core_set_fuel | exact S1] | eapply Q_core; [apply core_set_fuel | exact Q1]].
+    - cbn [snd]. split; [eapply SInv_core; [apply core_set_fuel | exact S1] | apply Q_fuel, Q1].
     - destruct (_ && _); [|split; assumption].
       pose proof (tp_fold offs p st (conj S1 Q1)) as H1.
       destruct (fold_left (fun '(p0, s) a => (Nat.pred p0, trunc_one a s)) offs (p, st)) as [p' st']. apply IH, H1.
@@ -94,7 +94,7 @@ Section TruncPres.
   Lemma tp_phase2 : forall fuel g a offs lo p st, SQ st -> SQ (snd (trunc_phase2 fuel g a offs lo p st)).
   Proof.
     induction fuel as [|k IH]; intros g a offs lo p st [S1 Q1]; cbn [trunc_phase2].
-    - cbn [snd]. split; [eapply SInv_core; [apply core_set_fuel | exact S1] | eapply Q_core; [apply core_set_fuel | exact Q1]].
+    - cbn [snd]. split; [eapply SInv_core; [apply core_set_fuel | exact S1] | apply Q_fuel, Q1].
     - destruct (_ && _); [|split; assumption].
       pose proof (tp_fold offs p st (conj S1 Q1)) as H1.
       destruct (fold_left (fun '(p0, s) a0 => (Nat.pred p0, trunc_one a0 s)) offs (p, st)) as [p' st']. apply IH, H1.
@@ -132,7 +132,7 @@ Proof.
   assert (F5 : Front st5).
   { intros a. destruct (F4 a) as [Hl Hc]. unfold front_at. rewrite Ch5. split; [intros x Hx; apply Hl, M5, Hx|].
     intros [x Hx]. destruct (Hc (ex_intro _ x (proj1 (M5 a x) Hx))) as [y [Hy1 Hy2]]. exists y. split; [apply M5, Hy1 | exact Hy2]. }
-  pose proof (truncate_pending_pres Front trunc_one_Front Front_core st5 S5 F5) as F6.
+  pose proof (truncate_pending_pres Front trunc_one_Front (fun s H => Front_core _ _ (core_set_fuel s) H) st5 S5 F5) as F6.
   pose proof (truncate_pending_RS st5 S5) as [S6 _].
   destruct (truncate_queue_SInv _ S6) as [_ [_ [Ch7 P7]]].
   intros a. unfold front_at.
